@@ -422,3 +422,81 @@ pub fn gen_expr(t: &mut Tape, depth: usize, want: K) -> E {
         },
     }
 }
+
+// ---------------------------------------------------------------------------------------------
+// policies over the U universe
+
+use crate::refmodel::policy::{ActC, EntRef, PrC, RPolicy};
+
+pub const ANN_KEYS: [&str; 6] = ["id", "advice", "if", "in", "a_b", "permit"];
+
+pub fn gen_prc(t: &mut Tape, allow_slot: bool) -> PrC {
+    let tys = ["A", "B", "NS::C", "C", "Action"];
+    let r = |t: &mut Tape| if allow_slot && t.bool_p(1, 2) { EntRef::Slot } else { EntRef::Uid(gen_uid(t)) };
+    match t.weighted(&[4, 2, 2, 1, 1]) {
+        0 => PrC::Any,
+        1 => PrC::Eq(r(t)),
+        2 => PrC::In(r(t)),
+        3 => PrC::Is(tys[t.upto(tys.len())].to_string()),
+        _ => {
+            let ty = tys[t.upto(tys.len())].to_string();
+            PrC::IsIn(ty, r(t))
+        }
+    }
+}
+
+pub fn gen_actc(t: &mut Tape) -> ActC {
+    let acts = actions();
+    match t.weighted(&[4, 2, 2, 2]) {
+        0 => ActC::Any,
+        1 => ActC::Eq(acts[t.upto(3)].clone()),
+        2 => ActC::In(acts[t.upto(3)].clone()),
+        _ => {
+            let n = t.upto(4);
+            ActC::InSet((0..n).map(|_| acts[t.upto(3)].clone()).collect())
+        }
+    }
+}
+
+pub fn gen_annotations(t: &mut Tape) -> Vec<(String, String)> {
+    let n = t.weighted(&[6, 2, 1]);
+    let mut out: Vec<(String, String)> = Vec::new();
+    for _ in 0..n {
+        let k = ANN_KEYS[t.upto(ANN_KEYS.len())];
+        if !out.iter().any(|(kk, _)| kk == k) {
+            out.push((k.to_string(), gen_string(t)));
+        }
+    }
+    out
+}
+
+/// `slots`: 0 = static policy, 1 = ?principal, 2 = ?resource, 3 = both
+pub fn gen_policy(t: &mut Tape, slots: u8, cond_depth: usize) -> RPolicy {
+    let permit = t.bool_p(3, 5);
+    let mut principal = gen_prc(t, false);
+    let mut resource = gen_prc(t, false);
+    if slots & 1 != 0 {
+        principal = match t.upto(3) {
+            0 => PrC::Eq(EntRef::Slot),
+            1 => PrC::In(EntRef::Slot),
+            _ => PrC::IsIn((*t.pick(&["A", "B", "NS::C"])).to_string(), EntRef::Slot),
+        };
+    }
+    if slots & 2 != 0 {
+        resource = match t.upto(3) {
+            0 => PrC::Eq(EntRef::Slot),
+            1 => PrC::In(EntRef::Slot),
+            _ => PrC::IsIn((*t.pick(&["A", "B", "NS::C"])).to_string(), EntRef::Slot),
+        };
+    }
+    let action = gen_actc(t);
+    let nc = t.weighted(&[2, 5, 2, 1]);
+    let conds = (0..nc)
+        .map(|_| {
+            let when = t.bool_p(3, 4);
+            let d = 1 + t.upto(cond_depth.max(1));
+            (when, gen_expr(t, d, K::Bool))
+        })
+        .collect();
+    RPolicy { permit, principal, action, resource, conds, annotations: gen_annotations(t) }
+}
